@@ -41,6 +41,10 @@ def run_contract(case):
     if res.get('unsupported'):
         status = ERR if res.get('engine_error') else UNDEC
         obs.append(Ob('%s/E1:%s/verified-subset' % (pid, fname), 'E1', status, sig=fname, detail=res['unsupported'], case=case))
+        for o in res.get('obligations') or []:
+            if o['status'] == FAIL:
+                obs.append(Ob('%s/E1:%s/%s' % (pid, fname, o['name']), 'E1', FAIL, sig=fname, detail=(o['detail'] or '') + ' [ast %s]' % res['hash'], case=case, t=o['t'],
+                              native={'reproduced': False}))
         return obs
     if not res['obligations']:
         obs.append(Ob('%s/E1:%s/obligations-generated' % (pid, fname), 'E1', UNDEC, sig=fname, detail='zero obligations (vacuity guard)', case=case))
